@@ -154,6 +154,12 @@ func (vc *VC) call(fr *Frame, instr ssa.Instruction, c *ssa.CallCommon, st *Stat
 		results["res0"] = res
 	}
 	for _, cs := range sites {
+		for _, h := range cs.Havoc {
+			vc.havocLoc(callerEnv(st, results), st, h)
+			vc.note("call-site frame (assumed): the call to " + name + " may additionally write " + h.String())
+		}
+	}
+	for _, cs := range sites {
 		for _, g := range cs.Ghost {
 			vc.ghostAssign(callerEnv(st, results), st, g)
 		}
@@ -1613,7 +1619,11 @@ func (vc *VC) loopBackEdge(fr *Frame, li *loopInfo, from *ssa.BasicBlock, ex *bl
 	for _, inv := range ls.Invariants {
 		env := vc.specEnvCur(fr, st, fr.oldStOrSelf(st), locals)
 		f := vc.trBool(env, inv.E)
-		vc.oblige(st, fmt.Sprintf("%s#loop%d.preserve.%d", fname, li.ord, inv.Idx), "loop.preserve", f, inv.Src, blockPos(li.header))
+		oname := fmt.Sprintf("%s#loop%d.preserve.%d", fname, li.ord, inv.Idx)
+		if k := vc.ord(fr, oname); k > 0 { // several back edges (`continue`): later ones get an ordinal
+			oname = fmt.Sprintf("%s.e%d", oname, k)
+		}
+		vc.oblige(st, oname, "loop.preserve", f, inv.Src, blockPos(li.header))
 	}
 }
 
@@ -1811,6 +1821,27 @@ func (vc *VC) loopCallMods(fr *Frame, li *loopInfo, x *ssa.Call, add func(comp, 
 		for _, cs := range fr.spec.Calls {
 			if cs.Callee != name {
 				continue
+			}
+			for _, h := range cs.Havoc {
+				// caller-side frame inside a loop: the whole component of the named location is loop-modified
+				done := false
+				if hc, ok := h.(*ECall); ok && len(hc.Args) == 1 {
+					if id, ok := hc.Fun.(*EIdent); ok && id.Name == "elems" {
+						if t, ok := vc.localTypes[exprName(hc.Args[0])]; ok {
+							if sl, ok := t.Underlying().(*types.Slice); ok {
+								add(vc.elemComp(sl.Elem()), "")
+								done = true
+							}
+						}
+					}
+				}
+				if !done {
+					for comp := range vc.compSort {
+						if !strings.HasPrefix(comp, "$") {
+							add(comp, "")
+						}
+					}
+				}
 			}
 			for _, gl := range [][]GhostSet{cs.Ghost, cs.GhostB} {
 				for _, g := range gl {
